@@ -4,7 +4,7 @@ from facts import *
 
 
 class Await:
-    __slots__ = ("body", "into_bb", "fut_local", "producer", "callee", "poll_bbs", "ready_edge", "ready_bb", "yield_bbs", "polled")
+    __slots__ = ("body", "into_bb", "fut_local", "producer", "callee", "poll_bbs", "ready_edge", "ready_bb", "yield_bbs", "polled", "poll_call_bb")
 
     def __repr__(self):
         return f"Await({self.callee} @bb{self.into_bb})"
@@ -40,6 +40,7 @@ def awaits(body):
         a.ready_bb = None
         a.yield_bbs = []
         a.polled = []
+        a.poll_call_bb = None
         seen = set()
         st = [bb]
         while st:
@@ -54,6 +55,8 @@ def awaits(body):
                 decl = tx["callee"]["declared"]
                 if tx["callee"]["base"].endswith("Future::poll") or (tx["callee"]["rbase"] in body.facts.bodies and body.facts.bodies[tx["callee"]["rbase"]].coroutine) or "as futures::Future>::poll" in decl or "as std::future::Future>::poll" in decl:
                     a.polled.append(tx["callee"]["rbase"] or tx["callee"]["base"])
+                    if a.poll_call_bb is None:
+                        a.poll_call_bb = x
             if tx["k"] == "switch" and tx.get("adt") == "std::task::Poll":
                 a.poll_bbs.append(x)
                 for e in body.succ[x]:
@@ -73,6 +76,10 @@ def awaits(body):
                                 break
                             y = s[0].dst
                 break
+            if tx["k"] == "call" and "orig_target" in tx and x != bb:
+                # a call whose callee was spliced in by a view: the await's own poll loop continues at the call's original target
+                st.append(tx["orig_target"])
+                continue
             for e in body.succ.get(x, ()):
                 st.append(e.dst)
         out.append(a)
@@ -454,6 +461,31 @@ def rv_origins(body, rv, bb, x, depth=0, _seen=None):
         if not projs:
             out += origins(body, p["local"], depth + 1, _seen)
             return out
+        # a read of a captured variable of a spliced-in closure/coroutine environment: resolve to the operand it was built from
+        if projs[0]["k"] == "field":
+            defs = body.prov.defs.get(p["local"], ())
+            envs = [d for d in defs if d[0] == "assign" and d[1]["rv"]["k"] == "agg" and ("coroutine" in d[1]["rv"] or "closure" in d[1]["rv"]) and d[1]["rv"].get("fields")]
+            if envs and len(defs) == len(envs):
+                hit = False
+                for d in envs:
+                    rvx = d[1]["rv"]
+                    if projs[0]["name"] in rvx["fields"]:
+                        o2 = rvx["ops"][rvx["fields"].index(projs[0]["name"])]
+                        if o2["k"] == "const":
+                            base = [("const", o2["val"])]
+                        else:
+                            pj = [pr for pr in o2["place"]["proj"] if pr["k"] != "deref"]
+                            base = origins(body, o2["place"]["local"], depth + 1, _seen)
+                            if pj:
+                                base = [("field", tuple(pr.get("name") or pr.get("variant") for pr in pj), tuple(base))]
+                        rest = projs[1:]
+                        if rest:
+                            out.append(("field", tuple(pr.get("name") or pr.get("variant") for pr in rest), tuple(base)))
+                        else:
+                            out += base
+                        hit = True
+                if hit:
+                    return out
         # (poll as Ready).0 -> the awaited value
         if p["local"] in pl and len(projs) >= 2 and projs[0]["k"] == "downcast" and projs[0]["variant"] == "Ready":
             a = pl[p["local"]]
